@@ -3,15 +3,24 @@
     Model/Client.v and hold for every trace: any number of callers and
     connections, every interleaving, every server behaviour (answers in any
     order, delayed, duplicated, for unknown ids, malformed, pongs, junk) and every
-    sequence of connection drops.
+    sequence of connection drops (idle, mid-request, during a reconnect).
+
+    The model is the model of the REPAIRED code: before "fix: do not answer an
+    auth nonce without an auth key" a tcp.authentificationNonce packet processed
+    while the status was Connecting blocked Connection.reader forever on
+    authCompleteChan with Connection.mu held (every later Send hung beyond its
+    deadline); reproduced on the real code by the harness (nonce flood, then RST).
 
     Runtime-only (DESIGN §1.5, not expressible in the model): absence of data
     races, goroutine counts, wall-clock bounds (deadline of the timeout, reconnect
     latency).  Liveness of reconnection needs fairness and is stated as an
     enabled path (partial).  Connections with an auth key (handshake that sends on
-    a channel while holding Connection.mu) are not modelled. *)
+    a channel while holding Connection.mu) are not modelled.  Critical sections
+    are atomic steps: the three mutexes are never nested on the modelled paths and
+    no blocking operation happens under them (checked on the source by the
+    harness' go/ast structure check), so mutual exclusion adds no blocked state. *)
 From Coq Require Import List NArith Bool.
-From Tongo Require Import Model.Client Proofs.ClientP.
+From Tongo Require Import Model.Client Proofs.ClientP Proofs.ClientHistory.
 Import ListNotations.
 
 (** A call that returns data returns an answer the server emitted for that call's
@@ -26,6 +35,19 @@ Theorem C12_own_answer :
     forall d', In (i, d') (delivered s) -> d' = d.
 Proof. exact own_answer. Qed.
 Print Assumptions C12_own_answer.
+
+(** ... hence, when the server answers query id [ids j] only with [payload j] and the
+    ids are pairwise distinct (256-bit math/rand ids: assumed, visible premise), no
+    call ever returns the answer addressed to another call. *)
+Theorem C12_no_foreign_answer :
+  forall nconn ids (payload : nat -> N) s i d,
+    reachable nconn ids init_state s ->
+    (forall a b, ids a = ids b -> a = b) ->
+    (forall id d', In (id, d') (emitted s) -> exists j, id = ids j /\ d' = payload j) ->
+    (pc s i = CLeaving (ROk d) \/ pc s i = CReturned (ROk d)) ->
+    d = payload i.
+Proof. exact no_foreign_answer. Qed.
+Print Assumptions C12_no_foreign_answer.
 
 (** ... and the answer gets through when it arrives while the call waits *)
 Theorem C12_answer_gets_through :
@@ -78,6 +100,30 @@ Theorem C12_single_reconnect :
     reachable nconn ids init_state s -> loops s k <= 1 /\ (loops s k = 1 <-> status s k = false).
 Proof. exact single_reconnect. Qed.
 
+Theorem C12_send_only_connected :
+  forall nconn ids s i s',
+    step nconn ids s (LSendOk i) = Some s' -> exists k, pc s i = CPicked k /\ status s k = true.
+Proof. exact send_only_connected. Qed.
+
+Theorem C12_reconnect_can_finish :
+  forall nconn ids s k,
+    reachable nconn ids init_state s -> status s k = false -> step nconn ids s (LReconnectDone k) <> None.
+Proof. exact reconnect_can_finish. Qed.
+
+(** "later calls succeed": in every reachable state a new call whose round-robin
+    connection is Connected completes with the answer the server sends for it on
+    any healthy connection with an idle reader. *)
+Theorem C12_call_completes :
+  forall nconn ids s i kr d,
+    reachable nconn ids init_state s ->
+    pc s i = CInit -> status s (next s) = true ->
+    status s kr = true -> broken s kr = false -> wire s kr = [] ->
+    exists s', exec nconn ids s [LRegister i; LPick i; LSendOk i; LEmit kr (PAnswer (ids i) d);
+                                 LDeliver kr; LRecv i; LUnregister i] = Some s' /\
+               pc s' i = CReturned (ROk d) /\ ~ In (ids i) (map fst (reg s')).
+Proof. exact call_completes. Qed.
+Print Assumptions C12_call_completes.
+
 (** PARTIAL (liveness): after a drop the path ping failure -> reconnect -> done is
     enabled and re-establishes the connection; that it is taken within a bounded
     time is a fairness / wall-clock fact, not proved. *)
@@ -103,4 +149,33 @@ Example C12_example :
        LRecv 2; LRecv 0; LTimeout 1; LUnregister 0; LUnregister 1; LUnregister 2] = Some s /\
     pc s 0 = CReturned (ROk 70) /\ pc s 1 = CReturned RTimeout /\ pc s 2 = CReturned (ROk 72) /\
     reg s = [] /\ delivered s = [(2, 72%N); (0, 70%N)].
+Proof. cbv zeta. eexists. split; [vm_compute; reflexivity|]. repeat apply conj; reflexivity. Qed.
+
+(** The repaired defect (Proofs/ClientHistory.v: status + "Connection.mu held by a
+    blocked handleAuthResponse"): before the fix a tcp.authentificationNonce packet
+    processed during a reconnect disables every later operation on the connection;
+    after the fix no trace ever does. *)
+Theorem C12_auth_nonce_wedges_before_fix :
+  exists s, cexec false cinit [CSend; CReconnectEnter; CNonce] = Some s /\
+            forall l, cstep false s l = None.
+Proof. exact auth_nonce_wedges_before_fix. Qed.
+
+Theorem C12_never_wedged_after_fix :
+  forall ls s, cexec true cinit ls = Some s -> stuck s = false /\ forall l, cstep true s l <> None.
+Proof. exact never_wedged_after_fix. Qed.
+
+(** Observation (reachable, not a violation of the safety theorems): two Sends fail
+    on a dead connection, each queues `go c.reconnect()`; the first re-establishes
+    the connection, the second — scheduled late — finds the status Connected and
+    tears the fresh connection down again (packets in flight are lost, the calls
+    waiting for them time out).  Still at most one loop at a time. *)
+Example C12_stale_reconnect_request :
+  let ids := fun i => (100 + N.of_nat i)%N in
+  exists s,
+    exec 1 ids init_state
+      [LDrop 0; LRegister 0; LPick 0; LSendFail 0; LRegister 1; LPick 1; LSendFail 1;
+       LReconnectEnter 0; LReconnectDone 0;
+       LRegister 2; LPick 2; LSendOk 2; LEmit 0 (PAnswer 102 7);
+       LReconnectEnter 0] = Some s /\
+    status s 0 = false /\ loops s 0 = 1 /\ wire s 0 = [] /\ pc s 2 = CSent.
 Proof. cbv zeta. eexists. split; [vm_compute; reflexivity|]. repeat apply conj; reflexivity. Qed.
